@@ -29,6 +29,7 @@ def rhombicToricCodeQuery (Lx Ly Lz : Nat) : List String → Option String
   | "deform" :: c :: name =>
     some (match RhombicToricCode.getDeformation (" ".intercalate name) (parseCoord c) with
       | none => "ERR value" | some m => Lat3Db.showPauliMap m)
+  | ["rankfamily"] => some (rhombicToricCodeShowCoords (RhombicToricCode.selStabs Lx Ly Lz))
   | ["n"] => some (toString (RhombicToricCode.lattice Lx Ly Lz).toCodeData.n)
   | ["k"] => some (toString (RhombicToricCode.lattice Lx Ly Lz).toCodeData.k)
   | _ => none
